@@ -15,3 +15,6 @@ head = subprocess.run(['git', '-C', '/repo', 'rev-parse', '--short', 'HEAD'], st
                       universal_newlines=True).stdout.strip()
 json.dump({'repo_head': head, 'predicates': g}, open(os.path.join(VERIF, 'reference', 'guards.json'), 'w'), indent=0)
 print('%d functions, %d predicates written (repo %s)' % (len(g), sum(len(v) for v in g.values()), head))
+e = guards.extract_events(c.index)
+json.dump({'repo_head': head, 'events': e}, open(os.path.join(VERIF, 'reference', 'decisions.json'), 'w'), indent=0)
+print('%d functions, %d statement kinds written to decisions.json' % (len(e), sum(len(v) for v in e.values())))
